@@ -81,6 +81,31 @@ def cases(thorough):
     for tri in (False, True):
         yield ('axis_aligned_cube', dict(triangulate=tri), lambda tri=tri: chk('axis_aligned_cube', dict(triangulate=tri), P.axis_aligned_cube(triangulate=tri), chi=2, loops=0, nV=8, nF=12 if tri else 6))
         yield ('quad', dict(triangulate=tri), lambda tri=tri: chk('quad', dict(triangulate=tri), P.quad(Vec(0, 0, 0), Vec(1, 0, 0), Vec(0, 1, 0), triangulate=tri), chi=1, loops=1, nV=4, nF=2 if tri else 1))
+    # switches honoured as named: volume=True gives one cell (class VolumeMesh), triangulate=True twelve triangles
+    def switches(gen, vol, tri):
+        pts = [Vec(0, 0, 0), Vec(1, 0, 0), Vec(0, 1, 0), Vec(0, 0, 1)]
+        if gen == 'hexahedron_4pts':
+            m = P.hexahedron_4pts(*pts, volume=vol)
+        elif gen == 'tetrahedron':
+            m = P.tetrahedron(*pts, volume=vol)
+        else:
+            c = P.axis_aligned_cube()
+            m = P.hexahedron(*[Vec(v) for v in c.vertices], triangulate=tri, volume=vol)
+        ncell = len(m.cells) if hasattr(m, 'cells') else 0
+        probs = []
+        if vol and (ncell != 1 or type(m).__name__ != 'VolumeMesh'):
+            probs.append('volume=True: %d cells, class %s' % (ncell, type(m).__name__))
+        if not vol and ncell != 0:
+            probs.append('volume=False: %d cells' % ncell)
+        if not vol and gen != 'tetrahedron':
+            want = 12 if tri else 6
+            if len(m.faces) != want or any(len(f) != (3 if tri else 4) for f in m.faces):
+                probs.append('triangulate=%s: %d faces of sizes %s' % (tri, len(m.faces), sorted(set(len(f) for f in m.faces))))
+        return {'generator': gen, 'params': dict(volume=vol, triangulate=tri), 'problems': probs} if probs else None
+    for gen in ('hexahedron_4pts', 'tetrahedron', 'hexahedron'):
+        for vol in (False, True):
+            for tri in ((False, True) if gen == 'hexahedron' else (False,)):
+                yield (gen, dict(volume=vol, triangulate=tri), lambda gen=gen, vol=vol, tri=tri: switches(gen, vol, tri))
     yield ('triangle', {}, lambda: chk('triangle', {}, P.triangle(Vec(0, 0, 0), Vec(1, 0, 0), Vec(0, 1, 0)), chi=1, loops=1, nV=3, nF=1))
     for nu, nv in [(3, 3), (4, 4), (6, 6)]:
         yield ('unit_triangle', dict(nu=nu, nv=nv), lambda nu=nu, nv=nv: chk('unit_triangle', dict(nu=nu, nv=nv), P.unit_triangle(nu, nv), chi=1, loops=1))
